@@ -92,7 +92,7 @@ def _limits(ctx, base_line, base_field, sym):
     )
 
 
-def _run(ctx, data, ncuts, limits, response, bytewise=False, eof=True):
+def _run(ctx, data, ncuts, limits, response, bytewise=False, eof=True, near=None):
     from aiohttp import http_parser as hp
 
     cls = hp.HttpResponseParser if response else hp.HttpRequestParser
@@ -105,7 +105,11 @@ def _run(ctx, data, ncuts, limits, response, bytewise=False, eof=True):
         chunks = [data[i:i + 1] for i in range(N)]
         cuts = "bytewise"
     else:
-        cuts = H.cut_points(ctx, "cut", N, ncuts)
+        if near is not None:
+            lo_c, hi_c = max(0, near[0]), min(N, near[1])
+            cuts = [lo_c + ctx.choice("cut0", hi_c - lo_c + 1)]
+        else:
+            cuts = H.cut_points(ctx, "cut", N, ncuts)
         chunks = H.pieces(data, cuts)
     cut = HC.run_request_parser(chunks, parser_cls=cls, eof=eof, **kw)
     f, key = relate(whole, cut, response)
@@ -137,18 +141,22 @@ RESP_TEMPLATES = {
 }
 
 
-def template(ctx, kind="req", name="get", lo=0, hi=None, h=1, ncuts=1, sym_limits=False, bytewise=False):
+def template(ctx, kind="req", name="get", lo=0, hi=None, h=1, ncuts=1, sym_limits=False, bytewise=False,
+             cut_near=None):
     t = (REQ_TEMPLATES if kind == "req" else RESP_TEMPLATES)[name]
     hi = len(t) - h + 1 if hi is None else hi
+    near = None
     if h:
         pos = lo + ctx.choice("pos", hi - lo)
         data = t[:pos] + ctx.bytes("h", h, "bytewise") + t[pos + h:]
+        if cut_near is not None:
+            near = (pos - cut_near, pos + h + cut_near)
     else:
         data = t
     first = t.find(b"\n")
     longest = max(len(x) for x in t.split(b"\n")[1:6]) if sym_limits else 0
     lim = _limits(ctx, first - 1, longest - 1, sym_limits)
-    return _run(ctx, data, ncuts, lim, kind == "resp", bytewise)
+    return _run(ctx, data, ncuts, lim, kind == "resp", bytewise, near=near)
 
 
 def symbolic_stream(ctx, kind="req", n=4, ncuts=1, prefix=b"", domain="bytewise"):
@@ -168,9 +176,10 @@ def setup_models():
 
 def jobs(tier):
     quick = tier == "quick"
-    lim = {"time_limit": 100 if quick else 1500}
+    lim = {"time_limit": 70 if quick else 1500}
     out = []
     span = 10 if quick else 6
+    near = 6 if quick else None
     for kind, T in (("req", REQ_TEMPLATES), ("resp", RESP_TEMPLATES)):
         for name, t in T.items():
             # all single cuts, no window, symbolic limits
@@ -184,7 +193,8 @@ def jobs(tier):
                 continue
             for lo in range(0, len(t), span):
                 out.append(dict(name=f"{kind}-{name}-w1-{lo}", func="template",
-                                params=dict(kind=kind, name=name, lo=lo, hi=min(lo + span, len(t)), h=1, ncuts=1),
+                                params=dict(kind=kind, name=name, lo=lo, hi=min(lo + span, len(t)), h=1, ncuts=1,
+                                            cut_near=near),
                                 limits=lim))
             if not quick:
                 for lo in range(0, len(t) - 1, span):
@@ -193,7 +203,7 @@ def jobs(tier):
                                                 ncuts=1), limits=lim))
     for kind, pre in (("req", b"POST / HTTP/1.1\r\nHost: a\r\nTransfer-Encoding: chunked\r\n\r\n"),
                       ("resp", b"HTTP/1.1 200 OK\r\nTransfer-Encoding: chunked\r\n\r\n")):
-        for n in ((3, 4) if quick else (3, 4, 5, 6)):
+        for n in ((3,) if quick else (3, 4, 5, 6)):
             out.append(dict(name=f"{kind}-chunked-sym-{n}", func="symbolic_stream",
                             params=dict(kind=kind, n=n, ncuts=1, prefix=pre, domain=None), limits=lim))
     return out
@@ -208,7 +218,7 @@ REQUIRED_OUTCOMES = ("reject/reject", "accept:1/accept:1", "accept:2/accept:2")
 
 def bounds(tier):
     return {"templates": {"request": sorted(REQ_TEMPLATES), "response": sorted(RESP_TEMPLATES)},
-            "cuts": "every single cut (symbolic), every pair of cuts, byte-at-a-time",
+            "cuts": "unmodified templates: every single cut, every pair of cuts, byte-at-a-time; templates with a window: every single cut (thorough) / every cut within 6 bytes of the window (quick)",
             "window": "1 byte (quick), 1-2 bytes (thorough) at every offset, domain 0x00-0x7F u 0xF8-0xFF",
             "limits": "max_line_size in [len(start line)-2, +2], max_field_size in [len(longest field)-2, +2], max_headers in 1..6 (symbolic, independent)",
             "symbolic_chunked_bodies": "3..4 bytes (quick), 3..6 (thorough), all 256 values"}
